@@ -59,6 +59,36 @@ macro_rules! boxed_rem_vt {
         }
     };
 }
+/// constructive shape (n := q*d + r built in u64) so that the add-back inputs of
+/// div_rem_vartime_in_place lie inside the shape
+macro_rules! boxed_div_vt_constructive {
+    ($name:ident, $N:expr, $M:expr, $d:expr, $kq:expr, $kr:expr) => {
+        #[kani::proof]
+        #[kani::unwind(7)]
+        fn $name() {
+            let df: Uint<$M> = $d;
+            let dv = to_u64(&df);
+            kani::assume(dv != 0);
+            let qraw: u32 = kani::any();
+            let qhi = qraw >> 2;
+            kani::assume(qraw >> $kq == 0 && (qhi == 0 || qhi == ((1u32 << $kq) - 1) >> 2));
+            let rsel: bool = kani::any();
+            let rk: u64 = (kani::any::<u8>() as u64) & ((1u64 << $kr) - 1);
+            kani::assume(rk < dv);
+            let rh = if rsel { dv - 1 - rk } else { rk };
+            let nv = (qraw as u64) * dv + rh;
+            kani::assume(nv >> (8 * $N) == 0);
+            let nf: Uint<$N> = from_u128(nv as u128);
+            let n = boxed_from(&words_of(&nf));
+            let d = NonZero::new(boxed_from(&words_of(&df))).unwrap();
+            let (q, r) = n.div_rem_vartime(&d);
+            assert!(bval(&q) == qraw as u64 && bval(&r) == rh && q.nlimbs() == $N && r.nlimbs() == $M);
+            kani::cover!(rh == dv - 1 && qraw > 3);
+            kani::cover!(rh == 0 && qraw > 3);
+            core::mem::forget((n, d, q, r));
+        }
+    };
+}
 macro_rules! boxed_div_ct {
     ($name:ident, $N:expr, $n:expr, $d:expr) => {
         #[kani::proof]
@@ -139,6 +169,10 @@ boxed_div_vt!(c02_k8_boxed_div_vt_1_2, 1, 2, any_uint(), Uint::new([Limb(shaped_
 boxed_div_vt!(c02_k8_boxed_div_vt_2_3, 2, 3, Uint::new([Limb(shaped_word(3)), Limb(kani::any())]), Uint::new([Limb(shaped_word(2)), Limb(shaped_word(2)), Limb(shaped_signed_top(2))]));
 //@ name=c02_k8_boxed_div_vt_3_3 prop=C02,C15,C11 tier=thorough profile=k8 funcs="BoxedUint::div_rem_vartime" bound="u8 words, boxed 3 by 3 limbs: n=[S(1),S(1),free], d=[S(1),S(1),S(2)^sign] != 0" free_bits=15
 boxed_div_vt!(c02_k8_boxed_div_vt_3_3, 3, 3, Uint::new([Limb(shaped_word(1)), Limb(shaped_word(1)), Limb(kani::any())]), Uint::new([Limb(shaped_word(1)), Limb(shaped_word(1)), Limb(shaped_signed_top(2))]));
+//@ name=c02_k8_boxed_div_vt_constructive_3_3 prop=C02,C15,C11,C17 tier=quick profile=k8 funcs="BoxedUint::div_rem_vartime,div_rem_vartime_in_place,div3by2" bound="u8 words, boxed 3 by 3 limbs: d=[S(1),S(1),free] (every top limb), n=q*d+r with q in {0..3,12..15}, r within 2 of 0 or d" free_bits=15 core=C17
+boxed_div_vt_constructive!(c02_k8_boxed_div_vt_constructive_3_3, 3, 3, Uint::new([Limb(shaped_word(1)), Limb(shaped_word(1)), Limb(kani::any())]), 4, 1);
+//@ name=c02_k8_boxed_div_vt_constructive_4_3 prop=C02,C15,C11,C17 tier=quick profile=k8 funcs="BoxedUint::div_rem_vartime,div_rem_vartime_in_place,div3by2" bound="u8 words, boxed 4 by 3 limbs: d=[S(1),S(1),free], n=q*d+r < 2^32 with q in {0..3,508..511}, r within 2 of 0 or d" free_bits=15 core=C17
+boxed_div_vt_constructive!(c02_k8_boxed_div_vt_constructive_4_3, 4, 3, Uint::new([Limb(shaped_word(1)), Limb(shaped_word(1)), Limb(kani::any())]), 9, 1);
 //@ name=c02_k8_boxed_div_ct_2 prop=C02,C15,C11 tier=quick profile=k8 funcs="BoxedUint::div_rem,div_rem_unchecked" bound="u8 words, boxed 2 by 2 limbs: n=[S(2),free], d=[S(2),S(2)^sign] != 0" free_bits=15
 boxed_div_ct!(c02_k8_boxed_div_ct_2, 2, Uint::new([Limb(shaped_word(2)), Limb(kani::any())]), Uint::new([Limb(shaped_word(2)), Limb(shaped_signed_top(2))]));
 //@ name=c02_k8_boxed_div_ct_3 prop=C02,C15,C11 tier=thorough profile=k8 funcs="BoxedUint::div_rem,div_rem_unchecked" bound="u8 words, boxed 3 by 3 limbs: n=[S(1),S(1),free], d=[S(1),S(1),S(2)^sign] != 0" free_bits=15
